@@ -84,6 +84,20 @@ def check_core_family(prop, tier):
         r = parser_pipeline(prop, tier, "c15", ("C04",), cfgname="c04")
         extra_viol = r["violations"]
         extra_cov = {"parser_histories_executed": r["n"], "parser_parses": r["nparse"], "parser_model_states": r["states"]}
+    # vacuity guards: the run must have exercised what the property is about
+    kinds = s["mutants_by_edit_kind"]
+    if prop == "C03":
+        needed = {"flip", "trunc-tail", "trunc-head", "drop-field", "extend-tail", "extend-head", "insert-after", "splice",
+                  "sig-reencode", "pay-noncanon", "hdr-bad", "relabel", "foot-drop", "foot-add-empty", "foot-add", "foot-replace",
+                  "foot-noncanon", "foot-garble", "foot-trunc", "foot-extend", "extra-seg", "few-seg", "prefix-payload",
+                  "dot-insert", "random-multi"}
+        missing = [k for k in needed if kinds.get(k, 0) == 0]
+        if missing or s["tolerated_accepted"] + s["tolerated_rejected"] == 0:
+            raise ToolError("vacuous C03 run: edit kinds without any concrete mutant: %s; tolerated cases: %d" % (missing, s["tolerated_accepted"]))
+    if prop in ("C01", "C02") and s["expected_ok"] == 0:
+        raise ToolError("vacuous %s run: no accepting presentation was replayed" % prop)
+    if prop in ("C04", "C05", "C06", "C07") and s["expected_reject"] == 0:
+        raise ToolError("vacuous %s run: no rejecting presentation was replayed" % prop)
     fresh = verif.report(prop, s["violations"] + extra_viol, tier)
     if s["nviol"] > len(s["violations"]) and fresh == 0 and s["nviol"] > 0:
         # more violations than were kept, all kept ones are known: be conservative
@@ -235,9 +249,12 @@ def builder_pipeline(prop, tier, conf, purpose=None):
                                           "reproduce": "pv " + " ".join(args) + " ; validate with spec/trace/BuilderTrace.tla"}})
     nbuilds = 0
     sample = []
+    hist = {}
     with open(trace) as f:
         for i, line in enumerate(f):
             nbuilds += line.count('"op":"build"')
+            for key in ('"res":"ok"', '"res":"dup"', '"res":"unreadable"'):
+                hist[key] = hist.get(key, 0) + line.count(key)
             if i in (0, n // 2, n - 1):
                 sample.append(json.loads(line))
     for smp in sample:
@@ -245,8 +262,10 @@ def builder_pipeline(prop, tier, conf, purpose=None):
             smp["ops"] = smp["ops"][:12] + ["... %d more calls" % (len(smp["ops"]) - 12)]
         if "counts" in smp:
             smp["counts"] = smp["counts"][:16] + ["..."]
+    if hist.get('"res":"ok"', 0) == 0 or (fam in ("c13", "c17") and hist.get('"res":"dup"', 0) == 0):
+        raise ToolError("vacuous builder run (%s): observed outcomes %s" % (fam, hist))
     return dict(states=res["distinct"], transitions=res["states"], nbeh=len(behs), n=n, bad=bad, violations=violations,
-                other=other, nbuilds=nbuilds, samples=sample, twall=tres["wall"], args=args)
+                other=other, nbuilds=nbuilds, samples=sample, twall=tres["wall"], args=args, outcomes=hist)
 
 
 def apalache_builder_induction():
@@ -314,6 +333,7 @@ def check_builder_family(prop, tier):
         "tlc_invariants": "Inv_DupIff, Inv_DupSticky, Inv_ExpDefault, Inv_Counter",
         "rejected_behaviours": len(r["bad"]),
         "rejected_for_other_properties": r["other"],
+        "observed_outcomes": r.get("outcomes", {}),
         "trace_validation_wall_s": round(r["twall"], 1),
         "exhaustive": False,
     }
@@ -380,17 +400,24 @@ def parser_pipeline(prop, tier, fam, whys, sweep=0, cfgname=None):
                                           "reproduce": "pv " + " ".join(args) + " ; validate with spec/trace/ParserTrace.tla"}})
     nparse = 0
     sample = []
+    hist = {}
     with open(trace) as f:
         for i, line in enumerate(f):
             nparse += line.count('"op":"parse"')
+            for key in ('"res":"ok"', '"res":"pre"', '"res":"claim"', '"res":"json"', '"res":"late"', '"errkind":"missing"', '"errkind":"mismatch"', '"errkind":"validator"'):
+                hist[key] = hist.get(key, 0) + line.count(key)
             if i in (0, n // 2, n - 1):
                 smp = json.loads(line)
                 if len(smp.get("ops", [])) > 8:
                     smp["ops"] = smp["ops"][:8] + ["... %d more calls" % (len(smp["ops"]) - 8)]
                     smp["toks"] = smp["toks"][:8] + ["..."]
                 sample.append(smp)
+    if hist.get('"res":"ok"', 0) == 0 or hist.get('"res":"claim"', 0) == 0:
+        raise ToolError("vacuous parser run (%s): observed outcomes %s" % (fam, hist))
+    if hist.get('"res":"late"', 0) > n // 2:
+        raise ToolError("the machine was too slow for the time-passing histories: %d late parses" % hist['"res":"late"'])
     return dict(states=res["distinct"], transitions=res["states"], nbeh=len(behs), n=n, bad=bad, violations=violations,
-                other=other, nparse=nparse, samples=sample, twall=tres["wall"])
+                other=other, nparse=nparse, samples=sample, twall=tres["wall"], outcomes=hist)
 
 
 def check_parser_family(prop, tier):
@@ -440,6 +467,7 @@ def check_parser_family(prop, tier):
         "tlc_invariants": "Inv_ExpectIff, Inv_Validators, Inv_ExpRejects, Inv_NbfRejects, Inv_Allowed, Inv_ParsePure",
         "rejected_behaviours": len(r["bad"]),
         "rejected_for_other_properties": r["other"],
+        "observed_outcomes": r.get("outcomes", {}),
         "trace_validation_wall_s": round(r["twall"], 1),
         "exhaustive": False,
     }
